@@ -189,6 +189,28 @@ def run(repo: Repo, L: Ledger, tier: str):
         up = slices[0].slice.upper
         hi = up.left.id if isinstance(up, ast.BinOp) and isinstance(up.left, ast.Name) else up.id if isinstance(up, ast.Name) else None
         rows_txt = norm(slices[0].value)
+
+        def origin(var, depth=0):
+            """follow plain copies (`a = b`, `a, b = (x, y)`) backwards from the slice to the variable the walks move"""
+            if var is None or depth > 4:
+                return var
+            last = None
+            for st_ in find.node.body:
+                if st_.lineno >= slices[0].lineno:
+                    break
+                if isinstance(st_, ast.Assign) and len(st_.targets) == 1:
+                    tg, val = st_.targets[0], st_.value
+                    if isinstance(tg, ast.Name) and tg.id == var:
+                        last = val
+                    elif isinstance(tg, ast.Tuple) and isinstance(val, ast.Tuple) and len(tg.elts) == len(val.elts):
+                        for te, ve in zip(tg.elts, val.elts):
+                            if isinstance(te, ast.Name) and te.id == var:
+                                last = ve
+                elif any(isinstance(x, ast.Name) and x.id == var and isinstance(x.ctx, ast.Store) for x in ast.walk(st_)):
+                    last = None
+            return origin(last.id, depth + 1) if isinstance(last, ast.Name) else var
+
+        lo, hi = origin(lo), origin(hi)
         walks = {}
         for w in walk_shallow(find.node):
             if isinstance(w, ast.While) and w.lineno < slices[0].lineno:
